@@ -747,7 +747,14 @@ def validate_values(nodes, constants, strict=False):
             if strict:
                 check("value", "constant " + node.name, node.value, -(1 << 63), (1 << 64) - 1, "64-bit range")
         elif isinstance(node, Enum):
+            later = set(member.name for member in node.members) if strict else set()
             for member in node.members:
+                """ an enumerator can use the earlier ones of its enum, not itself or a later one """
+                for symbol in member.dependencies():
+                    if symbol in later:
+                        raise ModelError("enumerator value '%s' of %s refers to '%s', which is defined later" %
+                                         (member.value, node.name, symbol))
+                later.discard(member.name)
                 check("enumerator value", node.name, member.value)
         elif isinstance(node, Union):
             values = set()
